@@ -258,6 +258,8 @@ def history_lines(r, kind):
         return lines
     lines = [app(), 'CREATE other', app(flags='\\Seen'), app('other')]
     n = 2
+    if kind not in ('moves',) and r.random() < 0.35:
+        lines += ['CREATE edge&IAM-', 'SUBSCRIBE edge&IAM-']
     if kind == 'moves':
         # C14 on maildir: MOVE / COPY cut by a process kill, with and without a stale record in the destination
         if r.random() < 0.6:
@@ -282,7 +284,8 @@ def history_lines(r, kind):
         elif x < 0.75:
             lines.append('EXPUNGE')
         elif x < 0.85:
-            lines.append(r.choice(['SUBSCRIBE other', 'SUBSCRIBE INBOX', 'UNSUBSCRIBE other']))
+            # `edge&IAM-` is the name `edge` + U+2003 (EM SPACE): an atom on the wire, white space at its edge in the subscriptions file
+            lines.append(r.choice(['SUBSCRIBE other', 'SUBSCRIBE INBOX', 'UNSUBSCRIBE other', 'CREATE edge&IAM-\r\nt SUBSCRIBE edge&IAM-'.split('\r\nt ')[0], 'SUBSCRIBE edge&IAM-']))
         elif x < 0.92:
             lines.append(r.choice(['CREATE third', 'CREATE a/b', 'RENAME other renamed']))
             if lines[-1].startswith('RENAME'):
